@@ -58,10 +58,12 @@ impl<T> ValuesMatrix<T> {
     }
 
     pub fn slice_iter(&self, skip: GenerationIdx) -> impl Iterator<Item = &[T]> {
+        // a cursor counts all generations including the empty ones (see generations_count),
+        // so they must be skipped before empty generations are filtered out
         self.values
             .iter()
-            .filter(|generation| !generation.is_empty())
             .skip(skip.into())
+            .filter(|generation| !generation.is_empty())
             .map(|generation| generation.as_ref())
     }
 
